@@ -126,6 +126,15 @@ func getEl(ptr reflect.Value) *big.Int {
 	return ptr.Interface().(bigGetter).BigInt(new(big.Int))
 }
 
+// blob is a caller-defined value travelling through the io.WriterTo / io.ReaderFrom path of the codec.
+type blob struct{ data []byte }
+
+func (b *blob) WriteTo(w io.Writer) (int64, error) { n, err := w.Write(b.data); return int64(n), err }
+func (b *blob) ReadFrom(r io.Reader) (int64, error) {
+	n, err := io.ReadFull(r, b.data)
+	return int64(n), err
+}
+
 // stream side -----------------------------------------------------------------------------------
 
 type slib struct {
@@ -177,6 +186,8 @@ func (s *slib) elSlice(T reflect.Type, es []*big.Int) reflect.Value {
 // (fr.Vector value for []fr, *[]G1Affine for []G1Affine); 2 = *fr.Vector (io.WriterTo path).
 func (s *slib) toLib(v ocodec.Val, form int) any {
 	switch v.Kind {
+	case ocodec.KBlob:
+		return &blob{data: append([]byte(nil), v.B...)}
 	case ocodec.KU64:
 		return v.U[0]
 	case ocodec.KU32:
@@ -248,6 +259,8 @@ func (s *slib) toLib(v ocodec.Val, form int) any {
 func (s *slib) newTarget(k ocodec.Kind, form int, dirty *ocodec.Val) reflect.Value {
 	var T reflect.Type
 	switch k {
+	case ocodec.KBlob:
+		return reflect.ValueOf(&blob{data: make([]byte, s.gr.BlobLen)})
 	case ocodec.KU64:
 		T = reflect.TypeOf(uint64(0))
 	case ocodec.KU32:
@@ -299,6 +312,8 @@ func (s *slib) fromLib(ptr reflect.Value, k ocodec.Kind) ocodec.Val {
 		return out
 	}
 	switch k {
+	case ocodec.KBlob:
+		v.B = append([]byte(nil), ptr.Interface().(*blob).data...)
 	case ocodec.KU64, ocodec.KU32:
 		v.U = []uint64{e.Uint()}
 	case ocodec.KU64s:
